@@ -329,6 +329,39 @@ theorem fam3_solves (p : SuFam3.P) (hε : 0 ≤ p.epsilon) (h0 : tiny ≤ p.eta)
 example : ∃ p : SuFam2.P, 0 < p.epsilon ∧ tiny ≤ p.eta ∧ p.eta ≤ oneMinusTiny ∧ tiny ≤ p.eta * p.epsilon :=
   ⟨⟨1, 1 / 2⟩, by norm_num, by unfold tiny; norm_num, by unfold oneMinusTiny; norm_num, by unfold tiny; norm_num⟩
 
+/-- **mode ⇔ dispersion relation** (registered form of `Spec.SuOlson.mode_radEq_iff`): where the mode
+does not vanish, (u, v) = (W e^{-sτ} sin(γx+θ), u/(1-s)) satisfies ε u_τ = u_xx + v - u IF AND ONLY IF
+γ² = ε s + s/(1-s); v_τ = u - v holds for every such pair. -/
+theorem mode_pair_iff_dispersion (ε W s γ θ x τ : ℝ) (hs : s ≠ 1) (hu : mode W s γ θ x τ ≠ 0) :
+    (RadEq ε (mode W s γ θ) (vmode W s γ θ) x τ ↔ Dispersion ε s γ) ∧ MatEq (mode W s γ θ) (vmode W s γ θ) x τ :=
+  ⟨mode_radEq_iff ε W s γ θ x τ hs hu, mode_matEq W s γ θ x τ hs⟩
+
+/-- **the constant 1 carries the boundary value**: 1 minus any combination of two mode pairs that
+satisfy the dispersion relation and have the Marshak phase solves both equations at every point and
+satisfies the Marshak condition u - (2/√3) u_x = 1 (the shape of `usol_shape`, mode by mode) -/
+theorem one_minus_modes (ε a b W₁ s₁ γ₁ θ₁ W₂ s₂ γ₂ θ₂ : ℝ) (h1 : s₁ ≠ 1) (h2 : s₂ ≠ 1)
+    (d1 : Dispersion ε s₁ γ₁) (d2 : Dispersion ε s₂ γ₂) (p1 : MarshakPhase γ₁ θ₁) (p2 : MarshakPhase γ₂ θ₂)
+    (x τ : ℝ) :
+    SolvesAt ε (fun x τ => (1 + (-a) * mode W₁ s₁ γ₁ θ₁ x τ) + (-b) * mode W₂ s₂ γ₂ θ₂ x τ)
+        (fun x τ => (1 + (-a) * vmode W₁ s₁ γ₁ θ₁ x τ) + (-b) * vmode W₂ s₂ γ₂ θ₂ x τ) x τ ∧
+      Marshak (fun x τ => (1 + (-a) * mode W₁ s₁ γ₁ θ₁ x τ) + (-b) * mode W₂ s₂ γ₂ θ₂ x τ) τ 1 := by
+  have m1 := mode_solvesAt ε W₁ s₁ γ₁ θ₁ x τ h1 d1
+  have m2 := mode_solvesAt ε W₂ s₂ γ₂ θ₂ x τ h2 d2
+  have dx1 : ∀ y, DifferentiableAt ℝ (fun z => mode W₁ s₁ γ₁ θ₁ z τ) y :=
+    fun y => (mode_hasDerivAt_x W₁ s₁ γ₁ θ₁ y τ).differentiableAt
+  have dx2 : ∀ y, DifferentiableAt ℝ (fun z => mode W₂ s₂ γ₂ θ₂ z τ) y :=
+    fun y => (mode_hasDerivAt_x W₂ s₂ γ₂ θ₂ y τ).differentiableAt
+  have c1 : ∀ y, DifferentiableAt ℝ (fun z : ℝ => (1 : ℝ)) y := fun y => differentiableAt_const _
+  have s1 := SolvesAt.add_smul (-a) (const_one_solvesAt ε x τ) m1
+    (Filter.Eventually.of_forall c1) (Filter.Eventually.of_forall dx1)
+  have dx12 : ∀ y, DifferentiableAt ℝ (fun z => 1 + (-a) * mode W₁ s₁ γ₁ θ₁ z τ) y :=
+    fun y => (c1 y).add ((dx1 y).const_mul _)
+  have s2 := SolvesAt.add_smul (-b) s1 m2 (Filter.Eventually.of_forall dx12) (Filter.Eventually.of_forall dx2)
+  refine ⟨s2, ?_⟩
+  have k1 := Marshak.add_smul (-a) (const_one_marshak τ) (mode_marshak W₁ s₁ γ₁ θ₁ τ p1) (c1 0) (dx1 0)
+  have k2 := Marshak.add_smul (-b) k1 (mode_marshak W₂ s₂ γ₂ θ₂ τ p2) (dx12 0) (dx2 0)
+  simpa using k2
+
 /-! ### conversion between the returned temperatures and the dimensionless solution -/
 
 /-- radiation constant `asol = 4 ssol / clight` [erg cm⁻³ K⁻⁴] as the double the code computes -/
